@@ -112,6 +112,11 @@ def enumerated(tier, seed):
             if (base + extra) % 256 == 0:
                 yield dict(kind="cas", level="virtualfile", steps=[first[:2], [first[2]], [_big_file(n, 0, 2, "ZD")], [_big_file(5, 1, 0, "ZE")]])
                 break
+    # a disk history that starts from a freshly formatted image (a disk without files is still a disk)
+    for level in ("virtualfile", "container"):
+        f1 = dict(name="ONE", ext="BIN", kind="ml", ftype=2, dtype=0, load=0x0E00, exec=0x0E00, data=dict(n=300, k=1, mode=0, head="", tail=""))
+        f2 = dict(name="two", ext="BAS", kind="basic", ftype=0, dtype=0, load=0, exec=0, data=dict(n=2300, k=2, mode=1, head="", tail=""))
+        yield dict(kind="dsk", level=level, blank_start=True, steps=[[f1], [f2], [dict(f1, name="THREE")]])
     # a tape has no limit on the number of files: 1,100 small ones, then 30 more, then one more (through the host-file
     # route only: the container route lists after every single addition, which is quadratic here)
     def small(i):
@@ -170,6 +175,11 @@ def execute(case):
     free = 68
     with driver.TempDir() as tmp:
         path = os.path.join(tmp, "image." + kind)
+        if case.get("blank_start") and kind == "dsk":
+            # the history starts from an existing disk image that holds no file yet (freshly formatted)
+            labels.append("starts_from_blank_image")
+            with open(path, "wb") as fh:
+                fh.write(b"\xff" * dskref.IMAGE_SIZE)
         for sidx, step in enumerate(case["steps"]):
             new = []
             toobig = []
